@@ -194,11 +194,13 @@ def _gen_fn(draw, cfg, plain, steps, is_step, n_stmts, allow, n_params=None, kw=
 def _perturb_fn(draw, fn):
     """Same structure and addresses, different constants (for the other Cond branch)."""
 
+    delta = draw(st.sampled_from([-1.0, -0.5, 0.5, 1.0]))  # one shift per function: shared sub-expressions stay shared
+
     def pe(e):
         if not isinstance(e, list):
             return e
         if e and e[0] == "c" and not isinstance(e[1], list):
-            return ["c", round(e[1] + draw(st.sampled_from([-1.0, -0.5, 0.5, 1.0])), 2)]
+            return ["c", round(e[1] + delta, 2)]
         return [pe(x) for x in e]
 
     return {"np": fn["np"], "kw": list(fn["kw"]), "body": [[s[0], s[1]] + [pe(x) for x in s[2:]] for s in fn["body"]], "ret": pe(fn["ret"])}
